@@ -13,8 +13,9 @@ gvars == <<vars, hist>>
 GInit == Init /\ hist = <<>>
 GAppend == AppendRec /\ hist' = Append(hist, "A")
 GCrash  == CrashDuringAppend /\ hist' = Append(hist, "C")
+GTorn   == TornWhileOpen /\ hist' = Append(hist, "T")
 GReopen == /\ hist # <<>> /\ hist[Len(hist)] # "R" /\ Reopen /\ hist' = Append(hist, "R")
-GNext == GAppend \/ GCrash \/ GReopen
+GNext == GAppend \/ GCrash \/ GTorn \/ GReopen
 GSpec == GInit /\ [][GNext]_gvars
 \* crashes are distinguished by offset class in the HistFile state; behaviours are exported by label word
 View == hist
